@@ -25,7 +25,9 @@ fn plant_extras(fs: &mut SimFs, t: &mut Tape, dir: &str, extras: &mut Vec<Extra>
     let now = fs.now;
     fs.mkdir_all(dir);
     if with_dotfiles {
-        for name in [".gitignore", ".app_state", ".k", ".kisme", ".DS_Store"] {
+        // the last name is not valid UTF-8 on disk (Latin-1 e-acute): the
+        // simulated filesystem spells the stray byte 0xE9 as U+F7E9
+        for name in [".gitignore", ".app_state", ".k", ".kisme", ".DS_Store", ".caf\u{F7E9}.state"] {
             if t.draw(3) == 0 {
                 let m = now - (1 + t.draw(5000) as i64) * 1_000_000_000;
                 let marked = t.draw(2) == 1;
